@@ -7,6 +7,7 @@ CONSTANTS
   Genesis <- Gen3
   Rankings <- Rank2
   Counts <- C23
+  ContentSet <- Every
   DefaultCount = 3
   MaxChanges = 1
   MaxLibLag = 0
